@@ -35,7 +35,7 @@ def builtinNames : List String :=
   ++ Gen.helperIdents.map (·.1) ++ Gen.helperClosures.map (·.1)
 
 def engineFuncs : List String :=
-  ["Math", "Object", "JSON", "startsWith", "truncate", "stripTags", "capitalize", "trim", "escapeHtml", "parseInt", "vpIdent", "range", "debug"]
+  ["Math", "Object", "JSON", "startsWith", "truncate", "stripTags", "capitalize", "trim", "escapeHtml", "parseInt", "vpIdent", "range", "debug", "vpWho"]
 
 def initState (data : Json) : St :=
   let (h, v) := convertData data Heap.empty
